@@ -17,14 +17,22 @@ import vlib
 from vlib import Evidence, MachineryError, Verdict, run_tlc, tlc_must_pass, tlc_judge
 
 PARTIES = [("Foo", "Bar"), ("May", "Anderson"), ("Will", "Hallock"), ("Smithson", "Jonesby"), ("Roe", "Wade"),
-           ("Nobelman", "American Savings Bank"), ("State", "Wingler"), ("Bell Atlantic Corp.", "Twombly"), ("Doe", "Doe")]
+           ("Nobelman", "American Savings Bank"), ("State", "Wingler"), ("Bell Atlantic Corp.", "Twombly"), ("Doe", "Doe"),
+           ("Great Lakes Dredge", "Harbor Towing Company")]
 CITES = ["1 U.S. 1", "345 U.S. 528, 73 S. Ct. 840, 97 L. Ed. 1221", "12 F.3d 345", "550 U.S. 544, 570", "25 N.J. 161"]
-STEPS = [["html"], ["html", "all_whitespace"], ["html", "inline_whitespace"]]
+# step lists containing `html` -- also with another cleaner BEFORE it (the order is the caller's) and three steps
+STEPS = [["html"], ["html", "all_whitespace"], ["html", "inline_whitespace"], ["all_whitespace", "html"],
+         ["inline_whitespace", "html"], ["html", "underscores", "all_whitespace"]]
+
+
+def nl(name):
+    """a name wrapped across lines (the blanks between its words become line breaks with indentation)"""
+    return name.replace(" ", "\n      ")
 
 
 def documents(rnd, n):
     docs = []
-    shapes = list(itertools.product(range(len(PARTIES)), range(len(CITES)), range(6), range(6)))
+    shapes = list(itertools.product(range(len(PARTIES)), range(len(CITES)), range(8), range(6)))
     rnd.shuffle(shapes)
     for (pi, ci, style, tail) in shapes[:n]:
         p, d = PARTIES[pi]
@@ -38,7 +46,11 @@ def documents(rnd, n):
                  f"See {o}{short}.{c} Then {o} {p}{c} again; {o}{short} :{c} at 7.",
                  f"{short} at 12 says so, and {o}{short}{c} at 14 too.",
                  f"A court {o}{short.lower()}{c} decline, and it {o}{p.lower()},{c} too.",
-                 f"Compare <b>{short}</b> with <span>{o}{short}{c}</span>&amp; others &lt;{p}&gt;."][style]
+                 f"Compare <b>{short}</b> with <span>{o}{short}{c}</span>&amp; others &lt;{p}&gt;.",
+                 # the WHOLE (possibly multi-word) party names, wrapped across lines inside the emphasis, closely followed
+                 # by other citations
+                 f"In {o}{nl(d)}{c}, id. at 7, and {o}{nl(p)}{c} at 9, 2 F.2d 2 (1950).",
+                 f"The rule of {o}{nl(d)},{c} supra, applies; see {o}{nl(p)}\n{c} too. Id."][style]
         filler = ["The court held that notice was due.", "Id. at 5.", f"2 F.2d 2 ({year + 1}).", f"See {o}Other v. Party{c}, 3 F. Supp. 2d 100 (2000).",
                   "Dun &amp; Bradstreet said &quot;no&quot;&nbsp;&mdash; twice.", "A &lt;b&gt; tag &amp; more &#167; 5."][tail]
         body = [f"<p>{head} {filler}</p>\n<p>{later}</p>", f"<div>{head}\n\n  {later} {filler}</div>",
@@ -72,7 +84,7 @@ def main(pid):
     ev.cov["distinct_nontrivial"] = sum(1 for o in obs if o["refs"])
     ev.cov["reference_citations_judged"] = nref
     ev.cov["markup_only_references"] = sum(1 for o in obs for r in o["refs"] if r["mode"] == "markup")
-    ev.cov["rule"] = "markup shapes: party pair x citation (incl. parallel) x 6 tag / punctuation styles x 3 layouts, x 3 step lists; non-trivial = at least one reference citation found"
+    ev.cov["rule"] = "markup shapes: party pair x citation (incl. parallel) x 8 tag / punctuation styles (incl. whole multi-word names wrapped across lines) x 3 layouts, x 6 step lists (html first, last, in the middle); non-trivial = at least one reference citation found"
     ev.assumptions = ["name validity is judged by a transcription of the rule in the harness (disallowed names read from eyecite.utils)",
                       "TLC, Json community module"]
     ev.write(vd)
